@@ -121,8 +121,12 @@ func (self *StreamDecoder) Decode(val interface{}) (err error) {
 		self.Decoder.Reset(string(self.buf[s:e]))
 		err = self.Decoder.Decode(val)
 		if err != nil {
-			self.setErr(err)
-			return
+			if _, ok := err.(*MismatchTypeError); !ok {
+				self.setErr(err)
+				return
+			}
+			// a well-formed value of the wrong type: it is consumed and reported,
+			// the stream goes on with the next value (only io and syntax errors are recorded)
 		}
 
 		self.scanp = e
@@ -142,7 +146,7 @@ func (self *StreamDecoder) Decode(val interface{}) (err error) {
 		self.scanp = 0
 
 		// a reader error met while looking past this value belongs to the next call
-		return nil
+		return err
 	}
 
 	return self.err
